@@ -577,7 +577,32 @@ def r12_7(ctx):
                   f"Task.percentage computes `{parts[0]}` but ProgressBar.percentage_completed computes `{parts[1]}`: the text column and the bar disagree")
 
 
-RULES = [r12_1, r12_2, r12_3, r12_4, r12_5, r12_6, r12_7]
+def r12_8(ctx):
+    ctx.rule("R12.8", "a finish time stays put until the total changes or the task is reset: in Progress.update every call that clears the task's finish bookkeeping (task._reset(), or a store of None to finished_time) is dominated by a test of the `total` argument (a new total was given) - never by the completed / advance arguments; Progress.reset is the only other caller")
+    f = ctx.repo.cls("progress:Progress").method("update")
+    if f is None:
+        raise AnchorVanished("Progress.update not found")
+    m = f.module
+    g = cfgmod.build(f.node)
+    n = 0
+    for nd in g.stmt_nodes():
+        if nd.kind != "stmt" or nd.stmt is None or isinstance(nd.stmt, (ast.With, ast.Try, ast.If, ast.For, ast.While)):
+            continue
+        clears = any(isinstance(c, ast.Call) and isinstance(c.func, ast.Attribute) and c.func.attr == "_reset" for c in ast.walk(nd.stmt)) or (
+            isinstance(nd.stmt, ast.Assign) and norm(nd.stmt.targets[0]).endswith(".finished_time") and isinstance(nd.stmt.value, ast.Constant) and nd.stmt.value.value is None)
+        if not clears:
+            continue
+        n += 1
+        facts = [(norm(t), v) for t, v in g.branch_facts(nd.id)]
+        names = {x.id for t, v in g.branch_facts(nd.id) for x in ast.walk(t) if isinstance(x, ast.Name)}
+        on_total = any(v is True and t in ("total is not None",) or (v is True and "total" in t.split() and "!=" in t) for t, v in facts)
+        other = sorted(names & {"completed", "advance", "description", "visible"})
+        ctx.check(on_total and not other, f.fq, short(nd.stmt), f"{m.relpath}:{nd.lineno}", "finish bookkeeping is cleared only when a new total is given",
+                  f"`{short(nd.stmt)}` clears the task's finish time / samples under {[t for t, v in facts] or 'no condition'}" + (f", which depends on {other}" if other else "") + ": an update that only changes `completed` on a finished task wipes its recorded finish time and records a new, later one")
+    ctx.floor(n, 1, "resets of the finish bookkeeping in Progress.update")
+
+
+RULES = [r12_1, r12_2, r12_3, r12_4, r12_5, r12_6, r12_7, r12_8]
 
 
 def _xcheck(ctx):
